@@ -44,6 +44,10 @@ def run(ctx):
     r11_learning_info(ctx)
     r12_copy_flag_owner(ctx)
     r13_evaluators_hold_no_generator(ctx)
+    # an evaluation writes only into its own copies: an in-memory / materialised environment hands the SAME dicts to the next triple
+    c04.r3_copy_before_mutate(ctx, rule="C03.R14", only={"SequentialCB", "SequentialIGL", "RejectionCB"})
+    ctx.rules["C03.R14"] = ("freshness analysis of the evaluators' read loops (incl. the reader SequentialIGL defines locally): an in-place mutation never targets an interaction "
+                            "borrowed from the environment -- otherwise the next triple on a materialised environment sees the rewritten interactions")
 
 
 def evaluate_calls(fn):
@@ -626,6 +630,7 @@ def _class_cache(tree):
 
 
 CONTROLS = [
+    ("IGL reader rewrites the environment's own interactions", SEQ, M.replace_stmt("SequentialIGL.evaluate", M.simple_has("new = interaction.copy()"), "new = interaction"), "C03.R14"),
     ("RejectionCB no longer clears learning_info on entry", SEQ, _no_entry_clear, "C03.R11"),
     ("chunk-local copy flag", PROC, M.insert_after("ChunkTasks._chunks", M.text_has("chunk_sorter ="), "for c in chunks.values():\n    for t in c: t.copy = False"), "C03.R12"),
     ("RejectionCB keeps its generator", SEQ, M.insert_after("RejectionCB.__init__", M.text_has("self._seed"), "self._rng = CobaRandom(seed)"), "C03.R13"),
